@@ -223,11 +223,12 @@ def monBorrow (cfg : Cfg) (pre post : State) (u : Nat) (b : Borrow) (isNew : Boo
            ∧ post.bank.get op.acct dOut ≥ 0 then [] else ["pool_funds"]
   m1 ++ m2
 
-def monWithdraw (pre post : State) (u lendId : Nat) (r extra : Int) : List String :=
+/-- `repaid`: what the same message took from the user in the lend's own denomination (repay-withdraw of a borrow of that asset) -/
+def monWithdraw (pre post : State) (u lendId : Nat) (r extra : Int) (repaid : Nat → Int := fun _ => 0) : List String :=
   match getLend pre.lends lendId with
   | none => ["pledged_safe"]
   | some l =>
-    let released := post.bank.get u l.asset - pre.bank.get u l.asset
+    let released := post.bank.get u l.asset - pre.bank.get u l.asset + repaid l.asset
     let bound := l.avail + r + extra
     let okLend : Bool := match getLend post.lends lendId with
       | some l' => decide (l'.avail = bound - released ∧ l'.avail ≥ 0)
@@ -251,9 +252,11 @@ def monitors (cfg : Cfg) (pre post : State) (op : Op) : List String :=
     | none => ["ltv"]
   | .withdraw u id _ _ r => monWithdraw pre post u id r 0
   | .closeLend u id r => monWithdraw pre post u id r 0
-  | .repayWithdraw u id _ r =>
+  | .repayWithdraw u id e r =>
     match getBorrow pre.borrows id with
-    | some b => monWithdraw pre post u b.lendingId r b.amountIn
+    | some b =>
+      let dI := match e with | .val dI _ => dI | _ => 0
+      monWithdraw pre post u b.lendingId r b.amountIn (fun d => if d = b.outDenom then b.amountOut + Dec.truncateInt (b.interest + dI) else 0)
     | none => ["pledged_safe"]
   | _ => []
 
